@@ -18,6 +18,8 @@ pub enum Sort {
 pub enum Merge {
     Min,
     Max,
+    Or,
+    And,
     NoMerge,
 }
 
@@ -111,6 +113,8 @@ impl Program {
                     let mm = match m {
                         Merge::Min => ":merge (min old new)",
                         Merge::Max => ":merge (max old new)",
+                        Merge::Or => ":merge (| old new)",
+                        Merge::And => ":merge (& old new)",
                         Merge::NoMerge => ":no-merge",
                     };
                     s.push_str(&format!("(function {} ({}) i64 {})\n", d.name, args.join(" "), mm));
@@ -193,6 +197,8 @@ impl Program {
                 Kind::Rel => "MOld",
                 Kind::Func(Merge::Min) => "MMin",
                 Kind::Func(Merge::Max) => "MMax",
+                Kind::Func(Merge::Or) => "MOr",
+                Kind::Func(Merge::And) => "MAnd",
                 Kind::Func(Merge::NoMerge) => "MAssertEq",
             }
             .to_string()
